@@ -89,6 +89,10 @@ func ReadPointCloud(in io.Reader) (*modeling.Mesh, error) {
 		return nil, scanner.Err()
 	}
 
+	if curLine < parsedCount {
+		return nil, io.ErrUnexpectedEOF
+	}
+
 	v3Data := make(map[string][]vector3.Float64)
 
 	v3Data[modeling.PositionAttribute] = readVerts
